@@ -7,69 +7,86 @@
    holding writer, readers; scrapped; the storage version the element reflects)
    the committed storage version per cache name, and ANY number of transactions,
    each a sequential program of With(name, readOnly, outcome) and Commit(fail).
-   `step fixed limit st t` is one atomic step of transaction t (None = blocked or
-   finished); `fixed` selects the version of With (true = current tree, with the
-   `done` check of commit 1944012; false = the pinned version), `limit` is the
-   manager's maxSize (-1 unlimited, 0 no shared caching, n entries).  A schedule
-   is ANY list of labels LT t (transaction t tries to step) / LDel n
-   (Manager.Release(n), or an eviction caused by traffic outside the modelled
-   transactions); `run` skips choices that are not enabled.  All theorems
-   quantify over arbitrary schedules, any number of transactions and any
-   program lengths. *)
+   `step fixed safe limit st t` is one atomic step of transaction t (None =
+   blocked or finished).  The two booleans select the version of the manager:
+     fixed = false, safe = false   the pinned tree
+     fixed = true,  safe = false   after commit 1944012 (With refuses a writing
+                                   access after Commit)
+     fixed = true,  safe = true    the current tree: a cache the transaction has
+                                   write-locked stays ITS cache for that name
+                                   until Commit (registered or not); failure
+                                   paths unregister an entry only if it still is
+                                   the element concerned; a successful Commit
+                                   discards whatever ELSE is registered under a
+                                   name it has written; a read access after
+                                   Commit reads like any other transaction.
+   `limit` is the manager's maxSize (-1 unlimited, 0 no shared caching, n
+   entries).  A schedule is ANY list of labels LT t (transaction t tries to
+   step) / LDel n (Manager.Release(n), or an eviction caused by traffic outside
+   the modelled transactions); `run` skips choices that are not enabled.  All
+   theorems quantify over arbitrary schedules, any number of transactions and
+   any program lengths. *)
 From Coq Require Import List Arith Bool ZArith Lia PeanoNat.
 From Semadb Require Import Model_C11 Proofs_C11 Proofs_C11b Proofs_C11c Proofs_C11d.
 Import ListNotations.
 
 (* ---------------------------------------------------------------------------
-   Exclusion.  `excl st`: (1) an element whose write lock a transaction owns has
-   no readers; (2) no OTHER transaction runs a callback on it; (3) a writing
+   Exclusion (current tree), unconditional in the schedule: Release, eviction
+   by checkAndPrune, limit 0, failing callbacks and failing Commits at any
+   moment.  `excl st`: (1) an element whose write lock a transaction owns has no
+   readers; (2) no OTHER transaction runs a callback on it; (3) a writing
    callback never overlaps another callback on the same element; (4) a callback
    on a private cold copy runs on an element that is not in the manager map.
-   Hypotheses: programs without With after Commit, and a CLEAN schedule
-   (Model_C11.clean): no step removes the map entry of an element that a writer
-   holds, waits for or is about to lock, unless that element is scrapped, and no
-   writing access is handed a scrapped element.  Without the second hypothesis
-   the statement is false (next theorem): this is the known finding F6. *)
+   Hypothesis: programs without With after Commit (wf_prog; the harness
+   exercises With after Commit, and c11_locks_released / c11_coherent cover it). *)
 Theorem c11_exclusion : forall fixed limit progs ls,
-  Forall wf_prog progs -> clean fixed limit ls (init progs) ->
-  excl (run fixed limit ls (init progs)).
+  Forall wf_prog progs -> excl (run fixed true limit ls (init progs)).
 Proof. exact thm_exclusion. Qed.
 Print Assumptions c11_exclusion.
 
-(* FULL STATEMENT (no cleanliness hypothesis) -- REFUTED by the faithful model,
-   with transaction steps only (no Release, no eviction, limit -1):
-   T0's writing callback on A fails; T1 writes A on a new element 1; T0's
-   Commit(true) deletes the NAME A, i.e. element 1's entry; T2 registers
-   element 2 and reads it; T1's second writing access finds element 2 under A,
-   has A in its written caches, takes no lock and writes while T2 reads. *)
-Theorem c11_exclusion_unconditional_refuted : exists progs ls,
-  let st := run true (-1) ls (init progs) in
+(* The pinned tree REFUTES it, with transaction steps only (no Release, no
+   eviction, limit -1): T0's writing callback on A fails; T1 writes A on a new
+   element 1; T0's Commit(true) deletes the NAME A, i.e. element 1's entry; T2
+   registers element 2 and reads it; T1's second writing access finds element 2
+   under A, has A in its written caches, takes no lock and writes while T2
+   reads.  (The same run with fixed = true, safe = false behaves identically.) *)
+Theorem c11_exclusion_refuted_v0 : exists progs ls,
+  let st := run false false (-1) ls (init progs) in
   Forall wf_prog progs /\ (forall l, In l ls -> exists t, l = LT t) /\
   (exists t t' e, t <> t' /\ in_cb_writing st t e /\ in_cb st t' e) /\ ~ excl st.
 Proof. exact thm_exclusion_needs_clean. Qed.
-Print Assumptions c11_exclusion_unconditional_refuted.
+Print Assumptions c11_exclusion_refuted_v0.
+
+(* Before the repair a READ access arriving after the Commit of its own
+   transaction used a cache the transaction had written without any lock (here:
+   while transaction 1 holds its write lock and writes it). *)
+Theorem c11_late_reader_refuted_v1 : exists progs ls,
+  let st := run true false (-1) ls (init progs) in
+  done (txs st 0) = true /\ in_cb st 0 0 /\ in_cb_writing st 1 0 /\ holds_write st 1 0 /\ ~ excl st.
+Proof. exact thm_late_reader_v1. Qed.
+Print Assumptions c11_late_reader_refuted_v1.
 
 (* Readers never wait for an element lock: whenever the manager mutex is free
    (it is held only inside the short manager sections and over createFn of a new
    entry) a transaction inside a read-only access can take its next step --
    TryRLock succeeds or the reader goes on with a private cold copy. *)
-Theorem c11_readers_never_wait : forall fixed limit st t,
+Theorem c11_readers_never_wait : forall fixed safe limit st t,
   reading (ph (txs st t)) = true -> mlock st = None ->
-  exists st', step fixed limit st t = Some st'.
+  exists st', step fixed safe limit st t = Some st'.
 Proof. exact thm_readers_never_wait. Qed.
 Print Assumptions c11_readers_never_wait.
 
 (* ---------------------------------------------------------------------------
    A scrapped element is never selected again: once an element is scrapped (a
-   callback on it failed, or the transaction that wrote it committed with
-   failure), no later step of any transaction decides to hand it to a callback
-   (`selects`: the step that fixes cacheToUse -- scrapped check, new entry,
-   private copy).  Unconditional: both versions of With, every limit, every
-   schedule including Release / eviction at any moment. *)
-Theorem c11_scrapped_not_reused : forall fixed limit st e, reachable fixed limit st ->
+   callback on it failed, the transaction that wrote it committed with failure,
+   or a successful Commit found it registered in place of its own cache), no
+   later step of any transaction decides to hand it to a callback (`selects`:
+   the step that fixes cacheToUse -- scrapped check, new entry, private copy).
+   Unconditional: all versions of the manager, every limit, every schedule. *)
+Theorem c11_scrapped_not_reused : forall fixed safe limit st e, reachable fixed safe limit st ->
   e_scrapped (elems st e) = true ->
-  forall ls t st3, let st2 := run fixed limit ls st in
-    step fixed limit st2 t = Some st3 -> ~ selects st2 t st3 e.
+  forall ls t st3, let st2 := run fixed safe limit ls st in
+    step fixed safe limit st2 t = Some st3 -> ~ selects st2 t st3 e.
 Proof. exact thm_scrapped_not_reused. Qed.
 Print Assumptions c11_scrapped_not_reused.
 
@@ -80,62 +97,62 @@ Print Assumptions c11_scrapped_not_reused.
    the element; reader 1's callback starts on it.  Only concurrent READERS of
    one element can do this (the overtaken reader holds a read lock on it). *)
 Theorem c11_scrapped_check_race_refuted : exists progs ls w c st st',
-  st = run true (-1) ls (init progs) /\
+  st = run true true (-1) ls (init progs) /\
   ph (txs st 1) = PReady w c /\ e_scrapped (elems st (c_e c)) = true /\
-  step true (-1) st 1 = Some st' /\ in_cb st' 1 (c_e c) /\
+  step true true (-1) st 1 = Some st' /\ in_cb st' 1 (c_e c) /\
   w_ro w = true /\ c_rl c = Some (c_e c).
 Proof. exact thm_scrapped_check_race. Qed.
 Print Assumptions c11_scrapped_check_race_refuted.
 
 (* ---------------------------------------------------------------------------
-   Locks are released (current version of With): when every transaction has run
-   its whole program and has committed or aborted -- every error path of With
-   included, With after Commit included -- the manager mutex is free and no
-   element in the manager map has a writer or a reader.  Any limit, any
-   schedule, Release / eviction at any moment. *)
-Theorem c11_locks_released : forall limit progs ls,
-  let st := run true limit ls (init progs) in
+   Locks are released (since 1944012; with and without the repair): when every
+   transaction has run its whole program and has committed or aborted -- every
+   error path of With included, With after Commit included -- the manager mutex
+   is free and no element in the manager map has a writer or a reader.  Any
+   limit, any schedule, Release / eviction at any moment. *)
+Theorem c11_locks_released : forall safe limit progs ls,
+  let st := run true safe limit ls (init progs) in
   all_done st -> locks_released st.
 Proof. exact thm_locks_released. Qed.
 Print Assumptions c11_locks_released.
 
-(* For the PINNED version (fixed = false) the statement is REFUTED: a writing
-   With on a new name that arrives after Commit takes a write lock that nobody
-   releases; transaction 0 is finished and committed, the entry of name 1 is
-   write-locked by it for ever, transaction 1 (a writer of name 1) can never
-   step again.  The current version on the same programs and schedule finishes
-   with all locks released. *)
+(* For the PINNED version the statement is REFUTED: a writing With on a new name
+   that arrives after Commit takes a write lock that nobody releases;
+   transaction 0 is finished and committed, the entry of name 1 is write-locked
+   by it for ever, transaction 1 (a writer of name 1) can never step again.  The
+   current version on the same programs and schedule finishes with all locks
+   released. *)
 Theorem c11_post_commit_with_refuted_v0 : exists progs ls st st',
-  st = run false (-1) ls (init progs) /\
+  st = run false false (-1) ls (init progs) /\
   finished (txs st 0) /\ done (txs st 0) = true /\
   (exists n e, lookup n (mmap st) = Some e /\ e_writer (elems st e) = Some 0) /\
   ~ finished (txs st 1) /\
-  (forall t, step false (-1) st t = None) /\
-  (forall ts, run false (-1) (map LT ts) st = st) /\
-  st' = run true (-1) (ls ++ rep 8 (LT 1)) (init progs) /\
+  (forall t, step false false (-1) st t = None) /\
+  (forall ts, run false false (-1) (map LT ts) st = st) /\
+  st' = run true true (-1) (ls ++ rep 8 (LT 1)) (init progs) /\
   finished (txs st' 0) /\ finished (txs st' 1) /\ locks_released st'.
 Proof. exact thm_post_commit_v0. Qed.
 Print Assumptions c11_post_commit_with_refuted_v0.
 
 (* ---------------------------------------------------------------------------
-   Progress (current version): if along the run concurrently active writing
-   transactions touch disjoint names (what holds for every use in semadb: cache
-   names are prefixed by the shard file and bbolt allows one writer per file),
-   then in every reachable state with an unfinished transaction some
-   transaction can step.  Any limit, Release / eviction at any moment. *)
-Theorem c11_progress : forall limit progs ls,
-  always disjoint_writers true limit ls (init progs) ->
-  let st := run true limit ls (init progs) in
-  (exists t, ~ finished (txs st t)) -> exists t st', step true limit st t = Some st'.
+   Progress (since 1944012; with and without the repair): if along the run
+   concurrently active writing transactions touch disjoint names (what holds for
+   every use in semadb: cache names are prefixed by the shard file and bbolt
+   allows one writer per file), then in every reachable state with an
+   unfinished transaction some transaction can step. *)
+Theorem c11_progress : forall safe limit progs ls,
+  always disjoint_writers true safe limit ls (init progs) ->
+  let st := run true safe limit ls (init progs) in
+  (exists t, ~ finished (txs st t)) -> exists t st', step true safe limit st t = Some st'.
 Proof. exact thm_progress. Qed.
 Print Assumptions c11_progress.
 
 (* the hypothesis is satisfiable by any set of programs in which all
    transactions but one are read-only -- then no hypothesis on the schedule *)
-Theorem c11_progress_single_writer : forall limit progs ls w0,
+Theorem c11_progress_single_writer : forall safe limit progs ls w0,
   (forall t p, t <> w0 -> nth_error progs t = Some p -> ro_prog p = true) ->
-  let st := run true limit ls (init progs) in
-  (exists t, ~ finished (txs st t)) -> exists t st', step true limit st t = Some st'.
+  let st := run true safe limit ls (init progs) in
+  (exists t, ~ finished (txs st t)) -> exists t st', step true safe limit st t = Some st'.
 Proof. exact thm_progress_single_writer. Qed.
 Print Assumptions c11_progress_single_writer.
 
@@ -146,10 +163,10 @@ Print Assumptions c11_progress_single_writer.
    through the shard layer; it is a limitation of the package, reported in the
    evidence and not as a violation. *)
 Theorem c11_cross_writers_refuted : exists progs ls,
-  let st := run true (-1) ls (init progs) in
+  let st := run true true (-1) ls (init progs) in
   Forall wf_prog progs /\
-  (forall t, step true (-1) st t = None) /\
-  (forall ts, run true (-1) (map LT ts) st = st) /\
+  (forall t, step true true (-1) st t = None) /\
+  (forall ts, run true true (-1) (map LT ts) st = st) /\
   ~ finished (txs st 0) /\ ~ finished (txs st 1) /\
   done (txs st 0) = false /\ done (txs st 1) = false /\
   ~ disjoint_writers st.
@@ -157,15 +174,23 @@ Proof. exact thm_cross_writers. Qed.
 Print Assumptions c11_cross_writers_refuted.
 
 (* ---------------------------------------------------------------------------
-   "Evicting or releasing a cache at any moment is harmless: a later
-   transaction rebuilds it from committed storage" -- REFUTED (known finding
-   F6).  coherent st: every registered, non-scrapped element that no writer
-   holds or waits for reflects the committed storage version of its name.
-   Witness: W writes A (element 0, registered, write-locked); Release(A);
-   R registers element 1 built from the version before W's commit; W commits
-   (version 1); R2 is handed element 1: stale, and it stays in the map. *)
-Theorem c11_evict_harmless_refuted : exists progs ls,
-  let st := run true (-1) ls (init progs) in
+   "Evicting or releasing a cache at any moment is harmless: a later transaction
+   rebuilds it from committed storage."  coherent st: every registered,
+   non-scrapped element that no writer holds or waits for reflects the committed
+   storage version of its name.  For the current tree this is an invariant of
+   EVERY run: any programs (With after Commit included), any schedule, Release /
+   eviction / pruning / failures at any moment, any limit. *)
+Theorem c11_coherent : forall fixed limit progs ls,
+  coherent (run fixed true limit ls (init progs)).
+Proof. exact thm_coherent. Qed.
+Print Assumptions c11_coherent.
+
+(* The pinned tree REFUTES it (finding F6, repaired): W writes A (element 0,
+   registered, write-locked); Release(A); R registers element 1 built from the
+   version before W's commit; W commits (version 1); R2 is handed element 1:
+   stale, and it stays in the map. *)
+Theorem c11_evict_harmless_refuted_v0 : exists progs ls,
+  let st := run false false (-1) ls (init progs) in
   Forall wf_prog progs /\
   done (txs st 0) = true /\ failed (txs st 0) = false /\
   (exists e, lookup 0 (mmap st) = Some e /\ in_cb st 2 e /\
@@ -173,55 +198,56 @@ Theorem c11_evict_harmless_refuted : exists progs ls,
              e_built (elems st e) < committed st 0) /\
   stale_cb st 2 = true /\ coherentb st = false /\ ~ coherent st.
 Proof. exact thm_evict_not_harmless. Qed.
-Print Assumptions c11_evict_harmless_refuted.
-
-(* What does hold: coherence is an invariant of every CLEAN run -- no Release,
-   eviction, limit-0 clear, limit-n pruning or foreign error path removes the
-   entry of an element that is write-locked (or that a writer waits for / is
-   about to lock), and no writer is handed a scrapped element. *)
-Theorem c11_coherent_without_eviction_of_locked : forall fixed limit progs ls,
-  Forall wf_prog progs -> clean fixed limit ls (init progs) ->
-  coherent (run fixed limit ls (init progs)).
-Proof. exact thm_coherent. Qed.
-Print Assumptions c11_coherent_without_eviction_of_locked.
+Print Assumptions c11_evict_harmless_refuted_v0.
 
 (* ---------------------------------------------------------------------------
-   Examples: the hypotheses are satisfiable by non-trivial runs. *)
+   Examples: non-trivial runs. *)
 
-(* a clean run with contention: reader 0 holds a read lock on element 0 inside
-   its callback, writer 1 has announced itself and waits for the reader,
-   reader 2 could not get the read lock and runs on the private element 1 *)
+(* the current tree on the schedules of the three refutations above: W's Commit
+   scraps and unregisters the stale element 1, R2 builds element 2 from version
+   1; T0's failing Commit leaves T1's entry alone and T2 reads a private copy;
+   the late reader gets a private copy while transaction 1 holds element 0 *)
+Example c11_example_repaired :
+  (let st := run true true (-1) ev_sched (init ev_progs) in
+   coherentb st = true /\ stale_cb st 2 = false /\ mmap st = [(0, 2)] /\ committed st 0 = 1 /\
+   e_built (elems st 2) = 1 /\ e_scrapped (elems st 1) = true) /\
+  (let st := run true true (-1) ex_sched (init ex_progs) in
+   mmap st = [(0, 1)] /\ ph (txs st 2) = PIn (mkW 0 true OK) (mkC 2 false None true)) /\
+  (let st := run true true (-1) lr_sched (init lr_progs) in
+   holds_write st 1 0 /\ ph (txs st 0) = PRet false None false true).
+Proof. exact thm_repaired_on_witnesses. Qed.
+
+(* contention: reader 0 holds a read lock on element 0 inside its callback,
+   writer 1 has announced itself and waits for the reader, reader 2 could not
+   get the read lock and runs on the private element 1 *)
 Definition ex_progs1 : list (list op) :=
   [[OWith 0 true OK; OCommit false]; [OWith 0 false OK; OCommit false]; [OWith 0 true OK; OCommit false]].
 Definition ex_sched1 : list label := rep 3 (LT 0) ++ rep 2 (LT 1) ++ rep 3 (LT 2).
-Example c11_example_clean_contention :
-  Forall wf_prog ex_progs1 /\ clean true (-1) ex_sched1 (init ex_progs1) /\
-  let st := run true (-1) ex_sched1 (init ex_progs1) in
+Example c11_example_contention :
+  Forall wf_prog ex_progs1 /\
+  let st := run true true (-1) ex_sched1 (init ex_progs1) in
   in_cb st 0 0 /\ holds_read st 0 0 /\
-  ph (txs st 1) = PWait (mkW 0 false OK) 0 /\ step true (-1) st 1 = None /\
+  ph (txs st 1) = PWait (mkW 0 false OK) 0 /\ step true true (-1) st 1 = None /\
   in_cb st 2 1 /\ ~ registered st 1 /\ excl st /\ coherent st.
 Proof.
   assert (Hwf : Forall wf_prog ex_progs1) by (repeat constructor).
-  assert (Hc : clean true (-1) ex_sched1 (init ex_progs1)).
-  { apply (cleanb_sound 3); [apply (init_inert ex_progs1)|vm_compute; reflexivity]. }
-  split; [exact Hwf|]. split; [exact Hc|]. cbv zeta.
+  split; [exact Hwf|]. cbv zeta.
   split; [eexists _, _; split; vm_compute; reflexivity|].
   split; [vm_compute; auto|].
   split; [vm_compute; reflexivity|].
   split; [vm_compute; reflexivity|].
   split; [eexists _, _; split; vm_compute; reflexivity|].
   split.
-  { intros [n Hl]. assert (Hm : mmap (run true (-1) ex_sched1 (init ex_progs1)) = [(0, 0)]) by (vm_compute; reflexivity).
+  { intros [n Hl]. assert (Hm : mmap (run true true (-1) ex_sched1 (init ex_progs1)) = [(0, 0)]) by (vm_compute; reflexivity).
     rewrite Hm in Hl. unfold lookup in Hl. destruct (Nat.eqb 0 n); discriminate. }
-  split; [apply c11_exclusion; assumption|apply c11_coherent_without_eviction_of_locked; assumption].
+  split; [apply c11_exclusion; assumption|apply c11_coherent].
 Qed.
 
-(* a clean run to the end: everything finished, all locks released, and the
-   writer's successor sees the committed version *)
+(* the same run to the end: everything finished, all locks released, the
+   registered element reflects the writer's commit *)
 Example c11_example_all_done :
-  let st := run true (-1) (ex_sched1 ++ rep 5 (LT 0) ++ rep 9 (LT 1) ++ rep 5 (LT 2)) (init ex_progs1) in
+  let st := run true true (-1) (ex_sched1 ++ rep 5 (LT 0) ++ rep 9 (LT 1) ++ rep 5 (LT 2)) (init ex_progs1) in
   finishedb (txs st 0) && finishedb (txs st 1) && finishedb (txs st 2) = true /\
-  cleanb 3 true (-1) (ex_sched1 ++ rep 5 (LT 0) ++ rep 9 (LT 1) ++ rep 5 (LT 2)) (init ex_progs1) = true /\
   mmap st = [(0, 0)] /\ e_writer (elems st 0) = None /\ e_readers (elems st 0) = [] /\
   committed st 0 = 1 /\ e_built (elems st 0) = 1.
 Proof. vm_compute. repeat split; reflexivity. Qed.
@@ -229,7 +255,7 @@ Proof. vm_compute. repeat split; reflexivity. Qed.
 (* limits 0 and 1: with limit 1 a second name evicts the least recently used
    entry; with limit 0 nothing is ever registered *)
 Example c11_example_limits :
-  mmap (run true 1 (rep 7 (LT 0)) (init [[OWith 0 true OK; OWith 1 true OK; OCommit false]])) = [(0, 0)] /\
-  mmap (run true 1 (rep 14 (LT 0)) (init [[OWith 0 true OK; OWith 1 true OK; OCommit false]])) = [(1, 1)] /\
-  mmap (run true 0 (rep 14 (LT 0)) (init [[OWith 0 true OK; OWith 1 false OK; OCommit false]])) = [].
+  mmap (run true true 1 (rep 7 (LT 0)) (init [[OWith 0 true OK; OWith 1 true OK; OCommit false]])) = [(0, 0)] /\
+  mmap (run true true 1 (rep 14 (LT 0)) (init [[OWith 0 true OK; OWith 1 true OK; OCommit false]])) = [(1, 1)] /\
+  mmap (run true true 0 (rep 14 (LT 0)) (init [[OWith 0 true OK; OWith 1 false OK; OCommit false]])) = [].
 Proof. vm_compute. repeat split; reflexivity. Qed.
